@@ -503,6 +503,7 @@ func monitorAdder(r *arun, ths []athread, xs []int64, mutex bool) string {
 		}
 	}
 	xOf := func(o *opRec) int64 { return xs[o.arg] }
+	concAfterMaint := false
 	soloMaint, concMaint := false, false // Store / Reset / SumAndReset seen in a solo phase / concurrently with updates (mutex adder)
 	for _, p := range order {
 		ops := phases[p]
@@ -521,6 +522,8 @@ func monitorAdder(r *arun, ths []athread, xs []int64, mutex bool) string {
 			soloMaint = true
 		} else if hasMaint {
 			concMaint = true
+		} else if soloMaint && len(nthreads) > 1 {
+			concAfterMaint = true // a phase of concurrent updates on an adder that was set / cleared before
 		}
 		if len(nthreads) == 1 {
 			// solo phase: behaves exactly like a single number (C16)
@@ -639,6 +642,10 @@ func monitorAdder(r *arun, ths []athread, xs []int64, mutex bool) string {
 			tag = "C19"
 		} else if soloMaint {
 			tag = "C16"
+			if concAfterMaint {
+				// updates lost or duplicated in a concurrent phase that ran on top of the cleared / stored adder: conservation as well
+				tag = "C02,C16"
+			}
 		}
 		return fmt.Sprintf("%s after all updates returned Sum=%s but the exact total is %s", tag, last.res, r.val(ref))
 	}
